@@ -439,6 +439,9 @@ def _r7_r8(chk: Check, sf: Surface) -> None:
         chk.bad(R7, 't_%s spans lines' % name, '%s:%d' % (lm.spec.module.rel, rm.rule.line),
                 'the rule can match across a line break: at top level the line break is a statement separator the grammar '
                 'never sees, so two lines are glued into one expression')
+    # what is a separator and where: the same judgement C15 makes, because dropping or keeping one changes which texts parse
+    from .c15 import separator_obligations
+    separator_obligations(chk, R7, F, lm, lm.spec.module.rel)
     # R8
     from .c17 import PARSER, cache_accesses, is_yacc_parse
     q = PARSER + '.parse'
@@ -449,11 +452,19 @@ def _r7_r8(chk: Check, sf: Surface) -> None:
     problems = []
     n = 0
     for p in SymExec(F, fi).run():
+        # what a hit hands out is what an earlier call stored: only the tree of a parser run that came back may go in
+        runs = [e for e in p.events if e.kind == 'call' and is_yacc_parse(e, selft)]
+        for k_, _key, e_ in cache_accesses(p, cache):
+            if k_ in ('store_sub', 'call.__setitem__', 'call.setdefault', 'call.update'):
+                if e_.in_ctx('handler') or e_.in_ctx('finally') or not p.normal:
+                    problems.append('`%s` (line %d) also runs while the error of a rejected text propagates: the second submission of '
+                                    'that text is a cache hit and is accepted' % (e_.text(), e_.line))
+                elif not runs or p.events.index(e_) < p.events.index(runs[0]):
+                    problems.append('`%s` (line %d) fills the cache before the parser has accepted the text' % (e_.text(), e_.line))
         if not p.normal:
             continue
         n += 1
         ret = p.outcome[1]
-        runs = [e for e in p.events if e.kind == 'call' and is_yacc_parse(e, selft)]
         from_cache = isinstance(ret, tuple) and ret[:1] == ('sub',) and om.carries(ret[1], cache)
         from_cache = from_cache or (isinstance(ret, tuple) and ret[:1] == ('call',) and isinstance(ret[2], tuple) and ret[2][:1] == ('attr',)
                                     and om.carries(ret[2][1], cache) and ret[2][2] in ('get', '__getitem__'))
